@@ -117,11 +117,19 @@ func coldScenario(refused int) *coldLine {
 		finish()
 		return line
 	}
-	time.Sleep(30 * time.Millisecond) // quiescent: nothing in flight, no loop running
-	line.AtSelected = note()
-	cut.Conn.Close()
+	// quiescent: nothing in flight, no loop running -- "quiescent" is reached when the loop goroutine has returned, which
+	// is asynchronous to the Selected notification: wait for the gauge to settle (a gauge that never does is reported)
+	settle := func() int {
+		v := note()
+		for end := time.Now().Add(time.Second); v != 0 && time.Now().Before(end); v = note() {
+			time.Sleep(2 * time.Millisecond)
+		}
+		return v
+	}
 	time.Sleep(10 * time.Millisecond)
-	line.AfterClose = note()
+	line.AtSelected = settle()
+	cut.Conn.Close()
+	line.AfterClose = settle()
 	finish()
 	return line
 }
